@@ -33,11 +33,22 @@ func (server *GripServer) Submit(ctx context.Context, query *gripql.GraphQuery) 
 	bufsize := 5000 //make this configurable?
 
 	res := pipeline.Start(context.Background(), pipe, man, bufsize, nil, nil)
+	// signal travelers of mark/jump loops are pipeline-internal: pipeline.Run drops them,
+	// and a stored job must hold the rows the traversal returns, nothing else
+	rows := make(chan gdbi.Traveler, bufsize)
+	go func() {
+		defer close(rows)
+		for t := range res {
+			if !t.IsSignal() {
+				rows <- t
+			}
+		}
+	}()
 	jobID, err := server.jStorage.Spool(query.Graph,
 		&jobstorage.Stream{
 			DataType:  dataType,
 			MarkTypes: markTypes,
-			Pipe:      res,
+			Pipe:      rows,
 			Query:     query.Query,
 		})
 	return &gripql.QueryJob{
